@@ -120,6 +120,11 @@ class StarArg:
         self.value = value
 
 
+class KeysView(tuple):
+    """`d.keys()` of a dict with concrete keys: a tuple for iteration / len / membership, but == / != between two key
+    views is python's set-like comparison (key order does not matter)"""
+
+
 class SymIter:
     """an iterable of symbolic length: item getter by position (0-based)"""
 
@@ -946,6 +951,8 @@ class Ctx:
     def eq_values(self, a, b):
         if a is None or b is None:
             return a is None and b is None
+        if isinstance(a, KeysView) and isinstance(b, KeysView):
+            return set(a) == set(b)
         if isinstance(a, (tuple, list)) and isinstance(b, (tuple, list)):
             if len(a) != len(b) or type(a) is not type(b):
                 return False
@@ -1363,6 +1370,8 @@ class Ctx:
                     return recv.get(k, args[1] if len(args) > 1 else None)
                 if n.func.attr == "copy":
                     return dict(recv)
+                if n.func.attr == "keys":
+                    return KeysView(recv.keys())  # iterates in insertion order, compares like a set (python's dict_keys)
                 if n.func.attr in ("items", "keys", "values"):
                     return tuple(getattr(recv, n.func.attr)())
                 if n.func.attr == "setdefault":
